@@ -286,6 +286,24 @@ theorem segmentizeIfOpen_keeps {t t' : Tcb} (e : t.segmentizeIfOpen = .ok t') :
        · exact segmentize_keeps _ _ _ e)
     | (cases e; exact ⟨[], by simp, fun _ h => by cases h⟩)
 
+/-- forming the pending FIN (C03's `queue_fin`) only appends a flagged entry -/
+theorem finIfPending_keeps {b : Bool} {t t' : Tcb} (e : finIfPending b t = .ok t') :
+    ∃ more, t'.outgoing.retransmit = t.outgoing.retransmit ++ more ∧ ∀ tr ∈ more, tr.needsTransmit = true := by
+  unfold finIfPending at e
+  split at e
+  · unfold queueFin at e
+    split at e
+    · rw [enqueue_eq] at e
+      dsimp only at e
+      cases e
+      refine ⟨[Transmit.new ⟨t.finHdr.built, []⟩], ?_, fun tr htr => ?_⟩
+      · show (t.enqueueBuilt t.finHdr.built).outgoing.retransmit = _
+        unfold enqueueBuilt
+        rw [if_pos (by show (t.finHdr.built.ctl.syn || t.finHdr.built.ctl.fin) = true; rfl)]
+      · rw [List.mem_singleton.1 htr]; rfl
+    · cases e; exact ⟨[], by simp, fun _ h => by cases h⟩
+  · cases e; exact ⟨[], by simp, fun _ h => by cases h⟩
+
 /-- **retransmission**: when the retransmission timer has expired (`dt` exceeds what is left of
     it), the next `segments()` returns every segment on the retransmission queue -/
 theorem retransmit_all {t t1 t2 : Tcb} {dt : Nat} {r : AdvanceTimeResult} {out : List Segment}
@@ -313,16 +331,22 @@ theorem retransmit_all {t t1 t2 : Tcb} {dt : Nat} {r : AdvanceTimeResult} {out :
   | error x => rw [hs] at e2; cases e2
   | ok s1 =>
     rw [hs] at e2
+    dsimp only at e2
+    cases hf : finIfPending t1.finPending s1 with
+    | error x => rw [hf] at e2; cases e2
+    | ok s2 =>
+    rw [hf] at e2
     simp only [Except.ok.injEq, Prod.mk.injEq] at e2
     obtain ⟨more, hk, _⟩ := segmentizeIfOpen_keeps hs
+    obtain ⟨more2, hk2, _⟩ := finIfPending_keeps hf
     rw [← e2.2, List.mem_append]
     right
     rw [List.mem_map]
     refine ⟨{ tr with needsTransmit := true }, ?_, rfl⟩
     rw [List.mem_filter]
     refine ⟨?_, rfl⟩
-    rw [hk, List.mem_append]
-    left
+    rw [hk2, hk, List.mem_append, List.mem_append]
+    left; left
     show _ ∈ t1.outgoing.retransmit
     rw [h1, List.mem_map]
     exact ⟨tr, htr, rfl⟩
